@@ -24,7 +24,7 @@ KOctNoAlg == OctKey(32, "a", NONE, NONE)
 VerifyCells ==
   { [op |-> "ToolVerify", key |-> KOct, alg |-> NONE, good |-> g, bad |-> b, mode |-> m, order |-> o] :
       g \in Goods, b \in (IF Quick THEN Bads ELSE {0, 1, 2, 3, 254, 255, 256, 257, 258, 511, 512, 513, 520} \cup {x \in 0..520 : x % 7 = 0}),
-      m \in {"argv", "stdin"}, o \in {"gb", "alt"} } \ { c \in { [op |-> "ToolVerify", key |-> KOct, alg |-> NONE, good |-> 0, bad |-> 0, mode |-> m, order |-> o] : m \in {"argv", "stdin"}, o \in {"gb", "alt"} } : TRUE }
+      m \in {"argv", "stdin", "stdin-nonl"}, o \in {"gb", "alt"} } \ { c \in { [op |-> "ToolVerify", key |-> KOct, alg |-> NONE, good |-> 0, bad |-> 0, mode |-> m, order |-> o] : m \in {"argv", "stdin", "stdin-nonl"}, o \in {"gb", "alt"} } : TRUE }
 RtKeys == { <<OctKey(32, "a", NONE, NONE), "HS256">>, <<OctKey(64, "a", "HS512", NONE), NONE>>,
             <<AsymKey("rsa2048a", 1, NONE, NONE), "RS256">>, <<AsymKey("rsa2048a", 1, "PS256", NONE), NONE>>,
             <<AsymKey("p256a", 1, NONE, NONE), "ES256">>, <<AsymKey("p384a", 1, "ES384", NONE), NONE>>,
@@ -33,7 +33,8 @@ RtKeys == { <<OctKey(32, "a", NONE, NONE), "HS256">>, <<OctKey(64, "a", "HS512",
 RoundTripCells ==
   { [op |-> "ToolRoundTrip", key |-> ka[1], alg |-> ka[2], gopts |-> go, vopts |-> vo, json |-> j, noiat |-> n] :
       ka \in RtKeys, go \in {"short", "long"}, vo \in {"short", "long"}, j \in {0, 1}, n \in {0, 1} }
-ConvBases == DOMAIN AsymBase
+\* key2jwk names JOSE curves only (P-256/384/521, secp256k1): other curves are outside its documented scope
+ConvBases == { b \in DOMAIN AsymBase : AsymBase[b].kty # "EC" \/ AsymBase[b].crv \in {"P-256", "P-384", "P-521", "secp256k1"} }
 KeyConvCells ==
   { [op |-> "ToolKeyConv", key |-> AsymKey(b, p, NONE, NONE)] : b \in ConvBases, p \in {0, 1} }
   \cup { [op |-> "ToolKeyConv", key |-> OctKey(n, v, NONE, NONE)] : n \in {32, 33, 47, 48, 64, 100, 512}, v \in {"a", "b"} }
